@@ -12,15 +12,18 @@
 //!              directory), @ABS@ (unique abstract-socket prefix), @PORT@ (free TCP port)
 //!     url    = the [ADDRESS/]INTERFACE.METHOD argument, same placeholders
 //!     args   = - | (args x<text> <json | bad>)      ARGUMENTS as typed, and what serde_json makes of it
-//!     color  = on | off | auto
+//!     color  = on | off | auto | absent             (absent: no --color argument)
+//!     further optional elements: (tty <stdout p|t> <stderr p|t>)  pipe or pseudo-terminal for the tool's stdout / stderr;
+//!              inside frames: (cuts n*)  byte offsets at which the service pauses between two writes
 //!     frame  = as in suite `client` ((f b<bytes> <dec>) | (part b<bytes> <dec>)); sent in answer to the
 //!              first request of the connection, then the service shuts down its sending side
 //!
 //! Observation:
-//!   (cli-obs (conns n) (decoy n) (resolver -|x<interface>) (log <req>*) (stdout <json>*) <clean t|f> <exit> <report>)
+//!   (cli-obs (conns n) (decoy n) (resolver -|x<interface>) (log <req>*) (stdout <json>*) <clean t|f> <esc t|f> <exit> <report>)
+//!     esc    = the raw stdout contains an ESC byte (ANSI colouring)
 //!     report = - | (std x<short> x<param>) | (named x<name> <json|->) | failed | (msg <class>)
 use crate::rng::Rng;
-use crate::suites::client::{frame_sx, part_sx, req_sx};
+use crate::suites::client::{big_reply_text, char_splitting_offsets, frame_sx, frames_to_bytes, part_sx, req_sx, write_in_pieces};
 use crate::sx::{self, Sx};
 use crate::{Case, Ctx, Suite};
 use serde_json::{json, Value};
@@ -109,7 +112,7 @@ struct Served {
 }
 
 /// accept connections until told to stop; answer the first request of each with `reply`
-fn serve(l: Listener, reply: Vec<u8>, hold: bool, stop: Arc<AtomicBool>) -> std::thread::JoinHandle<Served> {
+fn serve(l: Listener, reply: Vec<u8>, cuts: Vec<usize>, hold: bool, stop: Arc<AtomicBool>) -> std::thread::JoinHandle<Served> {
     std::thread::spawn(move || {
         let mut out = Served { conns: 0, log: Vec::new() };
         loop {
@@ -131,8 +134,7 @@ fn serve(l: Listener, reply: Vec<u8>, hold: bool, stop: Arc<AtomicBool>) -> std:
                                 out.log.push(buf);
                                 if first {
                                     first = false;
-                                    let _ = w.write_all(&reply);
-                                    let _ = w.flush();
+                                    write_in_pieces(&mut w, &reply, &cuts);
                                     if !hold {
                                         w.shut_wr();
                                     }
@@ -213,6 +215,37 @@ fn classify_stderr(raw: &str) -> Sx {
     sx::tagged("msg", vec![sx::atom(class)])
 }
 
+/// a pseudo-terminal in raw mode: (master, slave)
+fn open_pty() -> Option<(std::fs::File, std::fs::File)> {
+    use std::os::unix::io::FromRawFd;
+    unsafe {
+        let m = libc::posix_openpt(libc::O_RDWR | libc::O_NOCTTY | libc::O_CLOEXEC);
+        if m < 0 {
+            return None;
+        }
+        if libc::grantpt(m) != 0 || libc::unlockpt(m) != 0 {
+            libc::close(m);
+            return None;
+        }
+        let mut name = [0 as libc::c_char; 128];
+        if libc::ptsname_r(m, name.as_mut_ptr(), name.len()) != 0 {
+            libc::close(m);
+            return None;
+        }
+        let s = libc::open(name.as_ptr(), libc::O_RDWR | libc::O_NOCTTY | libc::O_CLOEXEC);
+        if s < 0 {
+            libc::close(m);
+            return None;
+        }
+        let mut tio: libc::termios = std::mem::zeroed();
+        if libc::tcgetattr(s, &mut tio) == 0 {
+            libc::cfmakeraw(&mut tio);
+            libc::tcsetattr(s, libc::TCSANOW, &tio);
+        }
+        Some((std::fs::File::from_raw_fd(m), std::fs::File::from_raw_fd(s)))
+    }
+}
+
 fn varlink_bin() -> std::path::PathBuf {
     let exe = std::env::current_exe().expect("current_exe");
     exe.parent().unwrap().join("varlink")
@@ -228,6 +261,9 @@ fn frames_bytes(frames: &Sx) -> (Vec<u8>, bool, usize, usize) {
     for f in &frames.as_list().unwrap()[1..] {
         if f.as_atom() == Some("hold") {
             hold = true;
+            continue;
+        }
+        if f.as_list().and_then(|l| l.first()).and_then(|a| a.as_atom()) == Some("cuts") {
             continue;
         }
         total += 1;
@@ -276,7 +312,13 @@ fn run_cli(input: &Sx) -> Sx {
     // the tool keeps waiting only if every frame is a successful reply (and it asked for more)
     let hold = hold && good == total && more;
     let keep_open = frames_bytes(&l[7]).1;
-    let decoy_t: Option<String> = l.get(8).and_then(|d| d.as_list()).and_then(|d| d.get(1)).and_then(|a| a.as_str());
+    let cuts: Vec<usize> = l[7].as_list().unwrap().iter().filter_map(|f| f.as_list()).filter(|f| f[0].as_atom() == Some("cuts"))
+        .flat_map(|f| f[1..].iter().filter_map(|c| c.as_usize()).collect::<Vec<_>>()).collect();
+    let tagged = |tag: &str| l[8..].iter().filter_map(|e| e.as_list()).find(|e| e[0].as_atom() == Some(tag)).map(|e| e.to_vec());
+    let tty = tagged("tty");
+    let out_tty = tty.as_ref().map(|t| t[1].as_atom() == Some("t")).unwrap_or(false);
+    let err_tty = tty.as_ref().map(|t| t[2].as_atom() == Some("t")).unwrap_or(false);
+    let decoy_t: Option<String> = l[8..].iter().filter_map(|e| e.as_list()).find(|e| e[0].as_atom() == Some("decoy")).and_then(|d| d.get(1)).and_then(|a| a.as_str());
 
     let n = COUNTER.fetch_add(1, Ordering::SeqCst);
     let dir = std::env::temp_dir().join(format!("vvcli-{}-{}", std::process::id(), n));
@@ -288,11 +330,11 @@ fn run_cli(input: &Sx) -> Sx {
     let url = subst(&url_t);
 
     let stop = Arc::new(AtomicBool::new(false));
-    let main_srv = if form == "nolisten" { None } else { bind(&listen).map(|l| serve(l, reply, keep_open, stop.clone())) };
+    let main_srv = if form == "nolisten" { None } else { bind(&listen).map(|l| serve(l, reply, cuts, keep_open, stop.clone())) };
     let decoy_srv = decoy_t.map(|d| subst(&d)).and_then(|d| bind(&d)).map(|l| {
         let mut rb = serde_json::to_vec(&json!({"parameters": {"who": "decoy"}})).unwrap();
         rb.push(0);
-        serve(l, rb, false, stop.clone())
+        serve(l, rb, Vec::new(), false, stop.clone())
     });
     // the resolver stub answers Resolve with the address of the scripted service
     let resolver_addr = format!("unix:{}/resolver", dir.to_str().unwrap());
@@ -300,13 +342,15 @@ fn run_cli(input: &Sx) -> Sx {
     let res_srv = if form == "resolver" {
         let mut rb = serde_json::to_vec(&json!({"parameters": {"address": listen}})).unwrap();
         rb.push(0);
-        bind(&resolver_addr).map(|l| serve(l, rb, false, stop.clone()))
+        bind(&resolver_addr).map(|l| serve(l, rb, Vec::new(), false, stop.clone()))
     } else {
         None
     };
 
     let mut cmd = Command::new(varlink_bin());
-    cmd.arg("--color").arg(&color);
+    if color != "absent" {
+        cmd.arg("--color").arg(&color);
+    }
     if form == "resolver" {
         cmd.arg("-R").arg(&resolver_addr);
     }
@@ -318,11 +362,45 @@ fn run_cli(input: &Sx) -> Sx {
     if let Some(a) = &args {
         cmd.arg(a);
     }
-    cmd.stdin(Stdio::null()).stdout(Stdio::piped()).stderr(Stdio::piped());
-    cmd.env_remove("VARLINK_ADDRESS");
+    cmd.env_remove("VARLINK_ADDRESS").env_remove("NO_COLOR").env_remove("CLICOLOR").env_remove("CLICOLOR_FORCE");
+    cmd.env("TERM", "xterm");
+    // stdout / stderr of the tool: a pipe, or the slave side of a pseudo-terminal (raw mode: no NL -> CRLF)
+    let out_pty = if out_tty { open_pty() } else { None };
+    let err_pty = if err_tty { open_pty() } else { None };
+    if (out_tty && out_pty.is_none()) || (err_tty && err_pty.is_none()) {
+        return sx::tagged("no-pty", vec![]);
+    }
+    cmd.stdin(Stdio::null());
+    let mut out_master: Option<std::fs::File> = None;
+    let mut err_master: Option<std::fs::File> = None;
+    match out_pty {
+        Some((m, sl)) => {
+            cmd.stdout(Stdio::from(sl));
+            out_master = Some(m);
+        }
+        None => {
+            cmd.stdout(Stdio::piped());
+        }
+    }
+    match err_pty {
+        Some((m, sl)) => {
+            cmd.stderr(Stdio::from(sl));
+            err_master = Some(m);
+        }
+        None => {
+            cmd.stderr(Stdio::piped());
+        }
+    }
     let mut child = cmd.spawn().expect("spawn varlink");
-    let mut so = child.stdout.take().unwrap();
-    let mut se = child.stderr.take().unwrap();
+    drop(cmd); // closes the parent's copies of the pty slaves: the masters see the end when the tool exits
+    let mut so: Box<dyn Read + Send> = match out_master {
+        Some(m) => Box::new(m),
+        None => Box::new(child.stdout.take().unwrap()),
+    };
+    let mut se: Box<dyn Read + Send> = match err_master {
+        Some(m) => Box::new(m),
+        None => Box::new(child.stderr.take().unwrap()),
+    };
     // stdout is read while the tool runs: what has been printed so far is observable at any time
     let out_buf: Arc<Mutex<Vec<u8>>> = Arc::new(Mutex::new(Vec::new()));
     let out_buf2 = out_buf.clone();
@@ -379,6 +457,7 @@ fn run_cli(input: &Sx) -> Sx {
     let _ = std::fs::remove_dir_all(&dir);
 
     // stdout: a sequence of JSON documents
+    let esc = stdout.contains(&0x1b);
     let text = strip_ansi(&String::from_utf8_lossy(&stdout));
     let mut docs = vec![sx::atom("stdout")];
     let mut clean = true;
@@ -419,6 +498,7 @@ fn run_cli(input: &Sx) -> Sx {
             sx::list(logsx),
             sx::list(docs),
             sx::boolean(clean),
+            sx::boolean(esc),
             exit,
             classify_stderr(&String::from_utf8_lossy(&stderr)),
         ],
@@ -621,6 +701,42 @@ fn gen_frames(rng: &mut Rng, more: bool, tags: &mut Vec<String>) -> Sx {
     sx::list(frames)
 }
 
+/// how the reply bytes travel: now and then the first reply is large with multi-byte characters at the 8 KiB /
+/// 16 KiB boundary of the client's read buffer; now and then the service writes in pieces that split a character
+fn transport(rng: &mut Rng, frames: Sx, tags: &mut Vec<String>) -> Sx {
+    let mut fl: Vec<Sx> = frames.as_list().unwrap().to_vec();
+    if rng.chance(1, 10) && fl.len() > 1 {
+        let first_ok = fl[1].as_list().map(|l| l.to_vec()).filter(|l| {
+            l[0].as_atom() == Some("f") && l[2].as_list().map(|d| d.len() == 4 && d[2].as_atom() == Some("-")).unwrap_or(false)
+        });
+        if let Some(l) = first_ok {
+            let cont = l[2].as_list().unwrap()[1].as_opt_bool().unwrap_or(None);
+            let at = *rng.pick(&[8189usize, 8190, 8191, 8192, 8193, 16381, 16382, 16383, 16384, 16385]);
+            fl[1] = frame_sx(&big_reply_text(cont, at));
+            tags.push("transport:large-reply-multibyte-at-buffer-boundary".into());
+        }
+    }
+    if rng.chance(1, 7) {
+        let body: Vec<Sx> = fl[1..].iter().filter(|f| f.as_list().is_some()).cloned().collect();
+        let bytes = frames_to_bytes(&body);
+        let mut offs = char_splitting_offsets(&bytes);
+        if offs.is_empty() && !bytes.is_empty() {
+            offs.push(rng.below(bytes.len()));
+        }
+        if !offs.is_empty() {
+            let mut cuts = vec![sx::atom("cuts")];
+            for _ in 0..rng.range(1, 3) {
+                cuts.push(sx::nat(*rng.pick(&offs)));
+            }
+            // before a trailing `hold`
+            let at = if fl.last().and_then(|x| x.as_atom()) == Some("hold") { fl.len() - 1 } else { fl.len() };
+            fl.insert(at, sx::list(cuts));
+            tags.push("transport:written-in-pieces".into());
+        }
+    }
+    sx::list(fl)
+}
+
 fn gen_case(rng: &mut Rng) -> Case {
     let mut tags = Vec::new();
     let method = match rng.below(6) {
@@ -706,10 +822,18 @@ fn gen_case(rng: &mut Rng) -> Case {
         }
     };
     let more = rng.chance(1, 2);
-    let color = *rng.pick(&["on", "off", "on", "off", "auto"]);
+    let color = *rng.pick(&["on", "off", "on", "off", "auto", "auto", "absent"]);
     tags.push(format!("color:{}", color));
     tags.push(format!("more:{}", more));
+    // where stdout / stderr of the tool go: pipes mostly; pseudo-terminals in every combination for auto/absent
+    let tty = if color == "auto" || color == "absent" {
+        *rng.pick(&["pp", "pp", "pt", "tp", "tt"])
+    } else {
+        *rng.pick(&["pp", "pp", "pp", "pp", "pp", "pt", "tp", "tt"])
+    };
+    tags.push(format!("tty:stdout={},stderr={}", &tty[0..1], &tty[1..2]));
     let frames = gen_frames(rng, more, &mut tags);
+    let frames = transport(rng, frames, &mut tags);
     tags.sort();
     tags.dedup();
     Case {
@@ -719,6 +843,9 @@ fn gen_case(rng: &mut Rng) -> Case {
                 let mut v = vec![sx::atom(form), sx::xs(&listen), sx::xs(&url), args, sx::boolean(more), sx::atom(color), frames];
                 if let Some(d) = decoy {
                     v.push(sx::tagged("decoy", vec![sx::xs(&d)]));
+                }
+                if tty != "pp" {
+                    v.push(sx::tagged("tty", vec![sx::atom(&tty[0..1]), sx::atom(&tty[1..2])]));
                 }
                 v
             },
